@@ -54,6 +54,22 @@ def run(ctx):
         except Exception:  # noqa
             pass
     bad += ctx.compare('corr:copyright:second-cycle', [('copyright_from_text', [t]) for t in second], _copy.impl)
+    # the hypothesis of the document theorem (C13_text_render_fixpoint) is a computable test: the model evaluates it on every
+    # generated document.  Where it answers true the statement is PROVED for that document (and the co-execution above ties the
+    # model to the code); where it answers false the document lies outside the proved class and only the executable statement
+    # and the co-execution speak for it.
+    sample = texts[:ctx.n(1000, 60000)]
+    ans = ctx.model.run([('c13_test', [t]) for t in sample])
+    st = ctx.stream('model:theorem-hypothesis-on-generated-documents')
+    st['cases'] = len(sample)
+    st['hypothesis_true'] = sum(1 for a in ans if a is True)
+    st['hypothesis_false'] = sum(1 for a in ans if a is False)
+    st['not_evaluated'] = sum(1 for a in ans if a not in (True, False))
+    outside = [t for t, a in zip(sample, ans) if a is not True]
+    if outside:
+        st['shortest_document_outside_the_proved_class'] = min(outside, key=len)[:400]
+    ctx.notes.append('document theorem: its computable hypothesis holds on %d of %d generated DEP-5 documents (those are covered by the proof)'
+                     % (st['hypothesis_true'], len(sample)))
     fails.sort(key=lambda f: len(f[0]))
     for x, why in fails[:10]:
         ctx.violation('property', 'C13 fails on the implementation: ' + why, x)
